@@ -1703,6 +1703,31 @@ func (u *Unit) enter(st *State, fr *Frame, b *ssa.BasicBlock) []Outcome {
 				}
 			}
 		}
+		// a `break`: an edge from inside the body to the block the loop's own condition exits to. The exit clauses
+		// are about leaving the loop and continuing after it, whichever way (a `return` inside the loop goes elsewhere).
+		if fr.from != nil && fr.ct != nil {
+			for _, lc := range fr.ct.Loops {
+				if lc.floating || lc.header == nil || len(lc.Exits) == 0 || lc.header == fr.from || !(lc.body[fr.from] || lc.header.Dominates(fr.from)) || lc.body[b] || fr.from == b {
+					continue
+				}
+				isExit := false
+				for _, succ := range lc.header.Succs {
+					isExit = isExit || (succ == b && !lc.body[succ])
+				}
+				if !isExit {
+					continue
+				}
+				for _, cl := range lc.Exits {
+					g, err := u.invEnv(st, fr, lc.header).safeFormula(cl, true)
+					if err != nil {
+						u.specError(fmt.Sprintf("loop %d exit %s", lc.Ord, cl.Label), err)
+						return nil
+					}
+					u.oblige(st, fmt.Sprintf("%s#loop%d.exit:%s", fnKey(u.fn), lc.Ord, cl.Label), "loop-exit", u.invTags(cl), g, cl.Text)
+					st.assume(g)
+				}
+			}
+		}
 		if lc := u.loopContract(fr, b); lc != nil {
 			return u.cutLoop(st, fr, b, lc)
 		}
